@@ -1,9 +1,16 @@
 package props
 
 import (
+	"bytes"
+	"context"
 	"fmt"
+	tpb "github.com/fullstorydev/grpchan/grpchantesting"
+	"github.com/fullstorydev/grpchan/inprocgrpc"
+	"google.golang.org/grpc"
 	"math/rand"
 	"strings"
+	"sync"
+	"sync/atomic"
 	"time"
 
 	"google.golang.org/grpc/metadata"
@@ -48,8 +55,83 @@ func waitStalled(run *Run, done <-chan struct{}) (stalled bool, inSend bool) {
 	return true, false
 }
 
+// countingCloner counts the copies the channel makes (what a stalled stream holds are such copies).
+type countingCloner struct {
+	inprocgrpc.ProtoCloner
+	clones atomic.Int64
+}
+
+func (c *countingCloner) Clone(in interface{}) (interface{}, error) {
+	c.clones.Add(1)
+	return c.ProtoCloner.Clone(in)
+}
+
+// runC20FanIn: a fan-in handler (several goroutines of one handler sending on the stream, which the in-process
+// server stream serialises with its lock) against a client that does not receive: however many sends are
+// attempted, the stalled stream holds a small constant number of copies, not one per attempt.
+func runC20FanIn(e *core.Env) {
+	e.Cases("fan-in-on-stalled-stream", e.N(6, 40), func(i int, r *rand.Rand) {
+		cl := &countingCloner{}
+		ch := (&inprocgrpc.Channel{}).WithCloner(cl)
+		senders := pick(r, 8, 16, 40)
+		started := make(chan struct{})
+		release := make(chan struct{})
+		ch.RegisterService(&grpc.ServiceDesc{ServiceName: "c20.FanIn", HandlerType: (*interface{})(nil), Streams: []grpc.StreamDesc{{StreamName: "S", ClientStreams: true, ServerStreams: true,
+			Handler: func(_ interface{}, ss grpc.ServerStream) error {
+				var wg sync.WaitGroup
+				for k := 0; k < senders; k++ {
+					wg.Add(1)
+					go func(k int) {
+						defer wg.Done()
+						ss.SendMsg(&tpb.Message{Payload: bytes.Repeat([]byte{byte(k)}, 2000), Count: int32(k)})
+					}(k)
+				}
+				close(started)
+				<-release
+				wg.Wait()
+				return nil
+			}}}}, struct{}{})
+		ctx, cancel := context.WithCancel(context.Background())
+		st, err := ch.NewStream(ctx, &grpc.StreamDesc{ClientStreams: true, ServerStreams: true}, "/c20.FanIn/S")
+		if err != nil {
+			cancel()
+			e.Inconclusive("C20 fan-in: %v", err)
+			return
+		}
+		_ = st
+		select {
+		case <-started:
+		case <-time.After(watchdog):
+			cancel()
+			e.Inconclusive("C20 fan-in: handler did not start")
+			return
+		}
+		// wait until the number of copies has stopped changing (the senders are parked)
+		last, same := int64(-1), 0
+		for k := 0; k < 400 && same < 20; k++ {
+			time.Sleep(2 * time.Millisecond)
+			if n := cl.clones.Load(); n == last {
+				same++
+			} else {
+				last, same = n, 0
+			}
+		}
+		held := cl.clones.Load()
+		e.Eval(fmt.Sprintf("fan-in|senders=%d", senders), true)
+		e.Count("fan_in_copies_held_max", held)
+		if held > 3 {
+			e.Violate("backpressure/fan-in/copies-held", fmt.Sprintf("%d goroutines of one handler send on a stream whose client does not receive: the channel has made %d copies of messages it cannot deliver (a small constant number is held on the unchanged design: the buffered one and the one being offered)", senders, held), map[string]any{"senders": senders, "copies": held})
+		}
+		cancel()
+		close(release)
+	})
+}
+
 func runC20(e *core.Env, n int) {
 	curEnv = e
+	if !e.Race {
+		runC20FanIn(e)
+	}
 	inp := NewInproc(&Service{}, carrierOpt{})
 	defer inp.Close()
 	e.Cases("stall", n, func(i int, r *rand.Rand) {
